@@ -49,7 +49,7 @@ C_RESERVED = {'self', 'vf_ret', 'restrict', 'register', 'auto', 'inline', 'typeo
 
 
 def kids(n):
-    return [c for c in (n.get('inner') or []) if isinstance(c, dict) and c]
+    return [c for c in (n.get('inner') or []) if isinstance(c, dict) and c.get('kind')]
 
 
 def qt(n):
